@@ -433,3 +433,282 @@ Proof.
       rewrite (sameF_reg_producer _ _ _ f), (Hf f), Hh in Hp. cbn [held] in Hp.
       rewrite (sameK_TC _ _ v (sameK_reg_producer _ _ _)) in Hp. lia.
 Qed.
+
+(* ------------------------------------------------------------------ one step *)
+Definition E (s : st) (v : N) : nat := (cnt (dlog s) v + cnt (resident s) v + cnt (held_all s) v)%nat.
+
+Lemma E_same s s' v : dlog s' = dlog s -> log s' = log s -> cap s' = cap s -> held_all s' = held_all s -> E s' v = E s v.
+Proof. intros H1 H2 H3 H4. unfold E, resident, head. rewrite H1, H2, H3, H4. reflexivity. Qed.
+
+Lemma TC_release_E s v : TC (release s) v = E s v.
+Proof. apply TC_release. Qed.
+
+Lemma TC_live_E s v : all_dead s = false -> TC s v = E s v.
+Proof. apply TC_live. Qed.
+
+Lemma new_fut_TC s f k s' o v :
+  new_fut s f k = (s', o) -> TC s' v = (TC s v + cnt (match o with ONA => [] | _ => held k end) v)%nat.
+Proof.
+  unfold new_fut. destruct (get (futs s) f) eqn:Eg; intros H; pinj H; [rewrite cnt_nil; lia|].
+  pose proof (TC_set_fut s f (mkFut k true None false false) v) as Hp. rewrite Eg in Hp.
+  unfold hv in Hp. cbn [f_live f_kind] in Hp. rewrite cnt_nil in Hp. lia.
+Qed.
+
+Lemma step_TC s o s' x v :
+  step s o = (s', x) -> 0 < cap s ->
+  TC s' v = (TC s v + cnt (offered_of o x) v + cnt (allvals x) v)%nat.
+Proof.
+  intros H Hc. destruct o; cbn [step] in H.
+  - (* TrySend *)
+    destruct (s_alive s) eqn:Ea; cbn [negb] in H; [|pinj H; cbn [offered_of allvals]; rewrite ?cnt_nil; lia].
+    destruct (s_closed s); [pinj H; rewrite TC_add_drops; cbn [offered_of allvals]; rewrite ?cnt_nil; lia|].
+    destruct (try_send_core v0 s) as [s1 res] eqn:Et. destruct (try_send_core_TC v0 s s1 res v Et Ea Hc) as [_ Ht].
+    destruct res; pinj H; try subst s1; rewrite ?TC_add_drops; cbn [offered_of allvals]; rewrite ?cnt_nil; lia.
+  - (* Send *)
+    destruct (s_alive s) eqn:Ea; cbn [negb orb] in H; [|pinj H; cbn [offered_of allvals]; rewrite ?cnt_nil; lia].
+    destruct (s_async s); [pinj H; cbn [offered_of allvals]; rewrite ?cnt_nil; lia|].
+    destruct (s_closed s); [pinj H; rewrite TC_add_drops; cbn [offered_of allvals]; rewrite ?cnt_nil; lia|].
+    destruct (try_send_core v0 s) as [s1 res] eqn:Et. destruct (try_send_core_TC v0 s s1 res v Et Ea Hc) as [_ Ht].
+    destruct res; pinj H; try subst s1; rewrite ?TC_add_drops; cbn [offered_of allvals]; rewrite ?cnt_nil; lia.
+  - (* TrySendB *)
+    destruct (s_alive s) eqn:Ea; cbn [negb] in H; [|pinj H; cbn [offered_of allvals]; rewrite ?cnt_nil; lia].
+    destruct vs as [|v1 vs0]; [pinj H; cbn [offered_of allvals]; rewrite ?cnt_nil; lia|].
+    destruct (s_closed s); [pinj H; rewrite TC_add_drops; cbn [offered_of allvals]; rewrite ?cnt_nil; lia|].
+    destruct (send_some (v1 :: vs0) s) as [[[s1 k] rest']|] eqn:Es;
+      [|pinj H; rewrite TC_add_drops; cbn [offered_of allvals]; rewrite ?cnt_nil; lia].
+    destruct (send_some_TC _ s s1 k rest' v Es Ea Hc) as (_ & Ht & Hr).
+    pose proof (firstn_skipn_cnt k (v1 :: vs0) v) as Hfs. rewrite <- Hr in Hfs.
+    destruct rest'; pinj H; rewrite ?TC_add_drops; cbn [offered_of allvals]; rewrite ?cnt_nil in *; lia.
+  - (* TrySendM *)
+    destruct (s_alive s) eqn:Ea; cbn [negb] in H; [|pinj H; cbn [offered_of allvals]; rewrite ?cnt_nil; lia].
+    destruct vs as [|v1 vs0]; [pinj H; cbn [offered_of allvals]; rewrite ?cnt_nil; lia|].
+    destruct (s_closed s); [pinj H; rewrite TC_add_drops; cbn [offered_of allvals]; rewrite ?cnt_nil; lia|].
+    destruct (send_some (v1 :: vs0) s) as [[[s1 k] rest']|] eqn:Es;
+      [|pinj H; rewrite TC_add_drops; cbn [offered_of allvals]; rewrite ?cnt_nil; lia].
+    destruct (send_some_TC _ s s1 k rest' v Es Ea Hc) as (_ & Ht & Hr).
+    pose proof (firstn_skipn_cnt k (v1 :: vs0) v) as Hfs. rewrite <- Hr in Hfs.
+    pinj H; rewrite ?TC_add_drops; cbn [offered_of allvals]; rewrite ?cnt_nil in *; lia.
+  - (* SendB *)
+    destruct (s_alive s) eqn:Ea; cbn [negb orb] in H; [|pinj H; cbn [offered_of allvals]; rewrite ?cnt_nil; lia].
+    destruct (s_async s); [pinj H; cbn [offered_of allvals]; rewrite ?cnt_nil; lia|].
+    destruct vs as [|v1 vs0]; [pinj H; cbn [offered_of allvals]; rewrite ?cnt_nil; lia|].
+    destruct (s_closed s); [pinj H; rewrite TC_add_drops; cbn [offered_of allvals]; rewrite ?cnt_nil; lia|].
+    destruct (send_some (v1 :: vs0) s) as [[[s1 k] rest']|] eqn:Es;
+      [|pinj H; rewrite TC_add_drops; cbn [offered_of allvals]; rewrite ?cnt_nil; lia].
+    destruct (send_some_TC _ s s1 k rest' v Es Ea Hc) as (_ & Ht & Hr).
+    pose proof (firstn_skipn_cnt k (v1 :: vs0) v) as Hfs. rewrite <- Hr in Hfs.
+    destruct rest'; pinj H; rewrite ?TC_add_drops; cbn [offered_of allvals]; rewrite ?cnt_nil in *; lia.
+  - (* SendM *)
+    destruct (s_alive s) eqn:Ea; cbn [negb orb] in H; [|pinj H; cbn [offered_of allvals]; rewrite ?cnt_nil; lia].
+    destruct (s_async s); [pinj H; cbn [offered_of allvals]; rewrite ?cnt_nil; lia|].
+    destruct vs as [|v1 vs0]; [pinj H; cbn [offered_of allvals]; rewrite ?cnt_nil; lia|].
+    destruct (s_closed s); [pinj H; rewrite TC_add_drops; cbn [offered_of allvals]; rewrite ?cnt_nil; lia|].
+    destruct (send_some (v1 :: vs0) s) as [[[s1 k] rest']|] eqn:Es;
+      [|pinj H; rewrite TC_add_drops; cbn [offered_of allvals]; rewrite ?cnt_nil; lia].
+    destruct (send_some_TC _ s s1 k rest' v Es Ea Hc) as (_ & Ht & Hr).
+    pose proof (firstn_skipn_cnt k (v1 :: vs0) v) as Hfs. rewrite <- Hr in Hfs.
+    destruct rest'; pinj H; rewrite ?TC_add_drops; cbn [offered_of allvals]; rewrite ?cnt_nil in *; lia.
+  - (* SClose *)
+    destruct (s_alive s) eqn:Ea; cbn [negb] in H; [|pinj H; cbn [offered_of allvals]; rewrite ?cnt_nil; lia].
+    destruct (tx_busy s); [pinj H; cbn [offered_of allvals]; rewrite ?cnt_nil; lia|].
+    destruct (s_closed s); pinj H; cbn [offered_of allvals]; rewrite ?cnt_nil; [lia|].
+    unfold sender_close_internal. rewrite (sameK_TC _ _ v (sameK_wake_all _)).
+    rewrite !TC_live_E by (apply all_dead_alive; cbn [set_sender s_alive]; assumption || reflexivity).
+    rewrite (E_same s _ v); try reflexivity. lia.
+  - (* SDrop *)
+    destruct (s_alive s) eqn:Ea; cbn [negb] in H; [|pinj H; cbn [offered_of allvals]; rewrite ?cnt_nil; lia].
+    destruct (tx_busy s); [pinj H; cbn [offered_of allvals]; rewrite ?cnt_nil; lia|].
+    pinj H. cbn [offered_of allvals]. rewrite ?cnt_nil, TC_release_E, (TC_live_E s) by (apply all_dead_alive; exact Ea).
+    destruct (s_closed s).
+    + rewrite (E_same s _ v); try reflexivity. lia.
+    + set (s1 := sender_close_internal s).
+      assert (Hk : sameK (set_sender s (s_alive s) (s_closed s) (s_async s) (s_taint s) true) s1)
+        by (unfold s1, sender_close_internal; apply sameK_wake_all).
+      destruct Hk as (K1 & K2 & K3 & K4 & K5 & K6).
+      rewrite (E_same s1 _ v); try reflexivity. rewrite (E_same s s1 v); auto. lia.
+  - (* SConv *)
+    destruct (s_alive s) eqn:Ea; cbn [negb] in H; [|pinj H; cbn [offered_of allvals]; rewrite ?cnt_nil; lia].
+    destruct (tx_busy s); [pinj H; cbn [offered_of allvals]; rewrite ?cnt_nil; lia|].
+    destruct (fixedm s); pinj H; cbn [offered_of allvals]; rewrite ?cnt_nil;
+      rewrite !TC_live_E by (apply all_dead_alive; cbn [set_sender s_alive]; assumption || reflexivity);
+      rewrite (E_same s _ v); try reflexivity; lia.
+  - (* SObs *)
+    destruct (s_alive s); cbn [negb] in H; pinj H; cbn [offered_of allvals]; rewrite ?cnt_nil; lia.
+  - (* TryRecv *)
+    apply with_rx_inv in H. destruct H as [[-> ->]|(y & Hg & Hl & H)]; [cbn [offered_of allvals]; rewrite ?cnt_nil; lia|].
+    destruct (r_closed y); [pinj H; cbn [offered_of allvals]; rewrite ?cnt_nil; lia|].
+    destruct (try_recv_core r y s) as [s1 res] eqn:Et. destruct (recv_TC r y s s1 res v Et Hg) as [_ Ht].
+    destruct res; pinj H; try subst s1; cbn [offered_of allvals out_of_rres]; rewrite ?cnt_nil; lia.
+  - (* Recv *)
+    apply with_rx_inv in H. destruct H as [[-> ->]|(y & Hg & Hl & H)]; [cbn [offered_of allvals]; rewrite ?cnt_nil; lia|].
+    destruct (r_async y); [pinj H; cbn [offered_of allvals]; rewrite ?cnt_nil; lia|].
+    destruct (r_closed y); [pinj H; cbn [offered_of allvals]; rewrite ?cnt_nil; lia|].
+    destruct (try_recv_core r y s) as [s1 res] eqn:Et. destruct (recv_TC r y s s1 res v Et Hg) as [_ Ht].
+    destruct res; pinj H; try subst s1; cbn [offered_of allvals out_of_rres]; rewrite ?cnt_nil; lia.
+  - (* RecvT *)
+    apply with_rx_inv in H. destruct H as [[-> ->]|(y & Hg & Hl & H)]; [cbn [offered_of allvals]; rewrite ?cnt_nil; lia|].
+    destruct (r_async y); [pinj H; cbn [offered_of allvals]; rewrite ?cnt_nil; lia|].
+    destruct (r_closed y); [pinj H; cbn [offered_of allvals]; rewrite ?cnt_nil; lia|].
+    destruct (try_recv_core r y s) as [s1 res] eqn:Et. destruct (recv_TC r y s s1 res v Et Hg) as [_ Ht].
+    destruct res; pinj H; try subst s1; cbn [offered_of allvals out_of_rres]; rewrite ?cnt_nil; lia.
+  - (* TryRecvB *)
+    apply with_rx_inv in H. destruct H as [[-> ->]|(y & Hg & Hl & H)]; [cbn [offered_of allvals]; rewrite ?cnt_nil; lia|].
+    destruct (N.eqb n 0); [pinj H; cbn [offered_of allvals]; rewrite ?cnt_nil; lia|].
+    destruct (r_closed y); [pinj H; cbn [offered_of allvals]; rewrite ?cnt_nil; lia|].
+    destruct (try_recv_batch_core r y n s) as [s1 res] eqn:Et. destruct (recv_batch_TC r y n s s1 res v Et Hg) as [_ Ht].
+    destruct res; pinj H; try subst s1; cbn [offered_of allvals out_of_bres]; rewrite ?cnt_nil; lia.
+  - (* RecvB *)
+    apply with_rx_inv in H. destruct H as [[-> ->]|(y & Hg & Hl & H)]; [cbn [offered_of allvals]; rewrite ?cnt_nil; lia|].
+    destruct (r_async y); [pinj H; cbn [offered_of allvals]; rewrite ?cnt_nil; lia|].
+    destruct (N.eqb n 0); [pinj H; cbn [offered_of allvals]; rewrite ?cnt_nil; lia|].
+    destruct (r_closed y); [pinj H; cbn [offered_of allvals]; rewrite ?cnt_nil; lia|].
+    destruct (try_recv_batch_core r y n s) as [s1 res] eqn:Et. destruct (recv_batch_TC r y n s s1 res v Et Hg) as [_ Ht].
+    destruct res; pinj H; try subst s1; cbn [offered_of allvals out_of_bres]; rewrite ?cnt_nil; lia.
+  - (* RClose *)
+    apply with_rx_inv in H. destruct H as [[-> ->]|(y & Hg & Hl & H)]; [cbn [offered_of allvals]; rewrite ?cnt_nil; lia|].
+    destruct (r_closed y); pinj H; cbn [offered_of allvals]; rewrite ?cnt_nil; [lia|].
+    rewrite (sameK_TC _ _ v (sameK_wake_producer _)), (TC_set_rx_same_live s r y (rx_unreg y) v Hg eq_refl). lia.
+  - (* RDrop *)
+    apply with_rx_inv in H. destruct H as [[-> ->]|(y & Hg & Hl & H)]; [cbn [offered_of allvals]; rewrite ?cnt_nil; lia|].
+    destruct (rx_busy s r); [pinj H; cbn [offered_of allvals]; rewrite ?cnt_nil; lia|].
+    pose proof (all_dead_live_rx s r y Hg Hl) as Hd.
+    destruct (r_closed y).
+    + rewrite Hg in H. pinj H. cbn [offered_of allvals]. rewrite ?cnt_nil, TC_release_E, (TC_live_E s v Hd).
+      rewrite (E_same s _ v); try reflexivity. lia.
+    + set (s1 := wake_producer (set_rx s r (rx_unreg y))) in *.
+      destruct (sameK_wake_producer (set_rx s r (rx_unreg y))) as (K1 & K2 & K3 & K4 & K5 & K6). fold s1 in K1, K2, K3, K4, K5, K6.
+      rewrite K4 in H. cbn [set_rx set_rxs rxs] in H. rewrite get_set_eq in H. pinj H.
+      cbn [offered_of allvals]. rewrite ?cnt_nil, TC_release_E, (TC_live_E s v Hd).
+      rewrite (E_same s1 _ v); try reflexivity. rewrite (E_same s s1 v); auto. lia.
+  - (* RClone *)
+    apply with_rx_inv in H. destruct H as [[-> ->]|(y & Hg & Hl & H)]; [cbn [offered_of allvals]; rewrite ?cnt_nil; lia|].
+    destruct (get (rxs s) c) eqn:Egc; [pinj H; cbn [offered_of allvals]; rewrite ?cnt_nil; lia|].
+    destruct (fixedm s && r_closed y); pinj H; cbn [offered_of allvals]; rewrite ?cnt_nil;
+      rewrite TC_set_rx_clone; try lia; try reflexivity; try assumption; right; eauto.
+  - (* RConv *)
+    apply with_rx_inv in H. destruct H as [[-> ->]|(y & Hg & Hl & H)]; [cbn [offered_of allvals]; rewrite ?cnt_nil; lia|].
+    destruct (rx_busy s r); [pinj H; cbn [offered_of allvals]; rewrite ?cnt_nil; lia|].
+    destruct (fixedm s); pinj H; cbn [offered_of allvals]; rewrite ?cnt_nil;
+      (rewrite (TC_set_rx_same_live s r y _ v Hg); [lia|cbn [r_live]; congruence]).
+  - (* RObs *)
+    apply with_rx_inv in H. destruct H as [[-> ->]|(y & Hg & Hl & H)]; [|pinj H]; cbn [offered_of allvals]; rewrite ?cnt_nil; lia.
+  - (* MkRecv *)
+    apply with_rx_inv in H. destruct H as [[-> ->]|(y & Hg & Hl & H)]; [cbn [offered_of allvals]; rewrite ?cnt_nil; lia|].
+    destruct (r_async y); [|pinj H; cbn [offered_of allvals]; rewrite ?cnt_nil; lia].
+    rewrite (new_fut_TC _ _ _ _ _ v H). cbn [held].
+    assert (Hx : x = ONA \/ x = OOk) by (unfold new_fut in H; destruct (get (futs s) f); pinj H; auto).
+    destruct Hx as [-> | ->]; cbn [offered_of allvals]; rewrite ?cnt_nil; lia.
+  - (* MkRecvB *)
+    apply with_rx_inv in H. destruct H as [[-> ->]|(y & Hg & Hl & H)]; [cbn [offered_of allvals]; rewrite ?cnt_nil; lia|].
+    destruct (r_async y); [|pinj H; cbn [offered_of allvals]; rewrite ?cnt_nil; lia].
+    rewrite (new_fut_TC _ _ _ _ _ v H). cbn [held].
+    assert (Hx : x = ONA \/ x = OOk) by (unfold new_fut in H; destruct (get (futs s) f); pinj H; auto).
+    destruct Hx as [-> | ->]; cbn [offered_of allvals]; rewrite ?cnt_nil; lia.
+  - (* MkSend *)
+    destruct (s_alive s && s_async s); [|pinj H; cbn [offered_of allvals]; rewrite ?cnt_nil; lia].
+    rewrite (new_fut_TC _ _ _ _ _ v H). cbn [held].
+    assert (Hx : x = ONA \/ x = OOk) by (unfold new_fut in H; destruct (get (futs s) f); pinj H; auto).
+    destruct Hx as [-> | ->]; cbn [offered_of allvals]; rewrite ?cnt_nil; lia.
+  - (* MkSendB *)
+    destruct (s_alive s && s_async s); [|pinj H; cbn [offered_of allvals]; rewrite ?cnt_nil; lia].
+    rewrite (new_fut_TC _ _ _ _ _ v H). cbn [held].
+    assert (Hx : x = ONA \/ x = OOk) by (unfold new_fut in H; destruct (get (futs s) f); pinj H; auto).
+    destruct Hx as [-> | ->]; cbn [offered_of allvals]; rewrite ?cnt_nil; lia.
+  - (* MkSendM *)
+    destruct (s_alive s && s_async s); [|pinj H; cbn [offered_of allvals]; rewrite ?cnt_nil; lia].
+    rewrite (new_fut_TC _ _ _ _ _ v H). cbn [held].
+    assert (Hx : x = ONA \/ x = OOk) by (unfold new_fut in H; destruct (get (futs s) f); pinj H; auto).
+    destruct Hx as [-> | ->]; cbn [offered_of allvals]; rewrite ?cnt_nil; lia.
+  - (* Poll *)
+    destruct (get (futs s) f) as [y|] eqn:Eg; [|pinj H; cbn [offered_of allvals]; rewrite ?cnt_nil; lia].
+    destruct (f_live y) eqn:El; [|pinj H; cbn [offered_of allvals]; rewrite ?cnt_nil; lia].
+    rewrite (poll_TC s f y w s' x v H Eg El Hc).
+    assert (Ho : offered_of (Poll f w) x = []) by (destruct x; reflexivity). rewrite Ho, cnt_nil. lia.
+  - (* DropF *)
+    destruct (get (futs s) f) as [y|] eqn:Eg; [|pinj H; cbn [offered_of allvals]; rewrite ?cnt_nil; lia].
+    destruct (f_live y) eqn:El; pinj H; cbn [offered_of allvals]; rewrite ?cnt_nil; [|lia].
+    rewrite TC_add_drops. pose proof (TC_kill s f y v) as Hk. rewrite (hvf_live s f y Eg El) in Hk. lia.
+  - (* PollNext *)
+    apply with_rx_inv in H. destruct H as [[-> ->]|(y & Hg & Hl & H)]; [cbn [offered_of allvals]; rewrite ?cnt_nil; lia|].
+    destruct (r_async y); cbn [negb] in H; [|pinj H; cbn [offered_of allvals]; rewrite ?cnt_nil; lia].
+    destruct (rx_busy s r); [pinj H; cbn [offered_of allvals]; rewrite ?cnt_nil; lia|].
+    destruct (r_closed y); [pinj H; cbn [offered_of allvals]; rewrite ?cnt_nil; lia|].
+    destruct (try_recv_core r y s) as [s1 res] eqn:Et. destruct (recv_TC r y s s1 res v Et Hg) as [_ Ht].
+    destruct res; pinj H; try subst s1; cbn [offered_of allvals]; rewrite ?cnt_nil;
+      rewrite ?(sameK_TC _ _ v (sameK_register _ _ _)); lia.
+  - (* Snap *)
+    pinj H. cbn [offered_of allvals]. rewrite ?cnt_nil. lia.
+Qed.
+
+(* ------------------------------------------------------------------ all histories *)
+Fixpoint offered (s : st) (ops : list op) : list N :=
+  match ops with
+  | [] => []
+  | o :: t => offered_of o (snd (step s o)) ++ offered (fst (step s o)) t
+  end.
+
+Definition delivered (outs : list out) : list N := flat_map allvals outs.
+
+Lemma cap_step s o : cap (fst (step s o)) = cap s.
+Proof.
+  destruct (step s o) as [s1 x] eqn:E. cbn [fst]. pose proof (step_shape _ _ _ _ E) as Hsh.
+  change (c_cap (proj s1) = c_cap (proj s)). destruct Hsh; reflexivity.
+Qed.
+
+Lemma conservation_from ops : forall s v, 0 < cap s ->
+  TC (end_of s ops) v = (TC s v + cnt (offered s ops) v + cnt (delivered (outs_from s ops)) v)%nat.
+Proof.
+  induction ops as [|o t IH]; intros s v Hc.
+  - cbn [end_of offered outs_from delivered flat_map]. rewrite cnt_nil. lia.
+  - cbn [end_of offered outs_from delivered flat_map]. fold (delivered (outs_from (fst (step s o)) t)).
+    rewrite IH by (rewrite cap_step; exact Hc). rewrite !cnt_app.
+    destruct (step s o) as [s1 x] eqn:E. cbn [fst snd]. rewrite (step_TC s o s1 x v E Hc). lia.
+Qed.
+
+Lemma TC_init fx c a v : TC (init fx c a) v = 0%nat.
+Proof. reflexivity. Qed.
+
+(* at any point of any history nothing is lost and nothing is duplicated: the drops so far, the values
+   still resident in slots and the values still held by live send futures are, as a multiset, exactly
+   what was entrusted to the channel plus the clones handed to receivers *)
+Theorem spmc_conservation fx c a ops :
+  0 < c ->
+  let s := end_of (init fx c a) ops in
+  Permutation (dlog s ++ resident' s ++ held_all s)
+              (offered (init fx c a) ops ++ delivered (outs_from (init fx c a) ops)).
+Proof.
+  intros Hc s. apply (Permutation_count_occ N.eq_dec). intros v.
+  pose proof (conservation_from ops (init fx c a) v Hc) as H. rewrite TC_init in H. fold s in H.
+  unfold TC in H. fold (cnt (dlog s ++ resident' s ++ held_all s) v).
+  fold (cnt (offered (init fx c a) ops ++ delivered (outs_from (init fx c a) ops)) v).
+  rewrite !cnt_app. lia.
+Qed.
+
+(* whatever the order in which handles and futures were dropped: once every handle is gone and no
+   future is alive, every payload instance entrusted to the channel and every clone handed to a receiver
+   has been dropped exactly once *)
+Theorem spmc_drop_exactly_once fx c a ops :
+  0 < c ->
+  let s := end_of (init fx c a) ops in
+  all_dead s = true -> held_all s = [] ->
+  Permutation (dlog s) (offered (init fx c a) ops ++ delivered (outs_from (init fx c a) ops)).
+Proof.
+  intros Hc s Hd Hh. pose proof (spmc_conservation fx c a ops Hc) as H. cbv zeta in H. fold s in H.
+  unfold resident' in H. rewrite Hd, Hh in H. cbn [app] in H. rewrite app_nil_r in H. exact H.
+Qed.
+
+(* the channel's own share: the originals.  At any time the slots hold exactly the last min(head, cap)
+   accepted values, each older original was dropped when its slot was overwritten (write1), and the rest
+   go when the last handle goes (release) *)
+Theorem spmc_overwrite_drops_previous_lap s v :
+  s_alive s = true -> 0 < cap s ->
+  dlog (write1 v s) = (if N.leb (cap s) (head s) then [nth (N.to_nat (head s - cap s)) (log s) 0] else []) ++ dlog s
+  /\ log (write1 v s) = log s ++ [v].
+Proof.
+  intros Ha Hc. split.
+  - unfold write1. destruct (sameK_drain (head s mod cap s)
+        (set_log (if N.leb (cap s) (head s) then add_drops s [nth (N.to_nat (head s - cap s)) (log s) 0] else s)
+                 (log (if N.leb (cap s) (head s) then add_drops s [nth (N.to_nat (head s - cap s)) (log s) 0] else s) ++ [v])))
+      as (K1 & _). rewrite K1. destruct (N.leb (cap s) (head s)); reflexivity.
+  - change (c_log (proj (write1 v s)) = log s ++ [v]). rewrite proj_write1. reflexivity.
+Qed.
